@@ -306,6 +306,14 @@ def run(ctx):
             for extra in (b"\x00", b"\x00" * 9, bytes(range(1, 40))):
                 m = pay + extra
                 specs.append((kind, "reencode", (EC.wrap(m) if EC.COMPRESSED[kind] else m).hex(), "trailing-bytes"))
+            # payloads padded with trailing data to the sizes at and around the multiples of the container's 16 KiB working buffer
+            # (a foreign blob can have any length; the library's own never land there)
+            if blob is blobs[0] or ctx.tier != "quick":
+                for size in (16383, 16384, 16385, 32767, 32768, 32769, 49152, 65535, 65536, 65537, 131072, 16384 * 3 + 1):
+                    if size > len(pay):
+                        fill = ctx.rng.randbytes(size - len(pay)) if size % 3 else bytes(size - len(pay))
+                        m = pay + fill
+                        specs.append((kind, "reencode", (EC.wrap(m) if EC.COMPRESSED[kind] else m).hex(), "payload-size-ladder"))
             if EC.COMPRESSED[kind]:
                 # the 4-byte length in front of the stream is only a hint: foreign blobs whose hint is off (under- or
                 # overstated) carry the same payload, with or without trailing data
